@@ -38,4 +38,10 @@ def judgeBad (obs : List String) : Bool :=
   let f (k : String) := match obs.find? (·.startsWith k) with | some t => (t.drop k.length).toString | none => ""
   f "err=" == "1" || f "strict=" == "1" || f "post=" != "-" || f "files=" != "-"
 
+/-- bodies that end while the reader is still looking for a delimiter: what was read may be exposed, but
+    the failure has to be flagged -/
+def judgeBadE (obs : List String) : Bool :=
+  let f (k : String) := match obs.find? (·.startsWith k) with | some t => (t.drop k.length).toString | none => ""
+  f "err=" == "1" || f "strict=" == "1"
+
 end Driver.Multipart
